@@ -116,20 +116,22 @@ Record cstate := mkC {
   c_env : list (var * place);
   c_loop : option (nat * nat);           (* height of curLoopScope for break; lowest height left by a continue
                                             (curLoopScopeSurvives: counting and for-each loops keep their scope) *)
-  c_fun : option (nat * option nat)      (* height of cfscp, return slot *)
+  c_fun : option (nat * option nat);     (* height of cfscp, return slot *)
+  c_glob : list var;                     (* global variables (declared in the outermost scope of the main module) *)
+  c_refs : list var                      (* Referenz parameters of the function being compiled *)
 }.
 
 Inductive res := RPrim | RTemp (s : nat) | RRef (p : place).
 
 Definition fresh (cs : cstate) : nat * cstate :=
-  (c_next cs, mkC (c_scopes cs) (S (c_next cs)) (c_env cs) (c_loop cs) (c_fun cs)).
+  (c_next cs, mkC (c_scopes cs) (S (c_next cs)) (c_env cs) (c_loop cs) (c_fun cs) (c_glob cs) (c_refs cs)).
 Definition with_scopes (cs : cstate) (l : list scope) : cstate :=
-  mkC l (c_next cs) (c_env cs) (c_loop cs) (c_fun cs).
+  mkC l (c_next cs) (c_env cs) (c_loop cs) (c_fun cs) (c_glob cs) (c_refs cs).
 Definition push_scope (cs : cstate) : cstate := with_scopes cs (empty_scope :: c_scopes cs).
 Definition pop_scope (cs : cstate) : cstate := with_scopes cs (tl (c_scopes cs)).
 (* leaving a block: the variables declared in it are no longer visible (lookupVar walks the scope chain) *)
 Definition leave_scope (cs : cstate) (env0 : list (var * place)) : cstate :=
-  mkC (tl (c_scopes cs)) (c_next cs) env0 (c_loop cs) (c_fun cs).
+  mkC (tl (c_scopes cs)) (c_next cs) env0 (c_loop cs) (c_fun cs) (c_glob cs) (c_refs cs).
 Definition height (cs : cstate) : nat := length (c_scopes cs).
 
 Definition map_head (f : scope -> scope) (cs : cstate) : cstate :=
@@ -142,7 +144,7 @@ Definition add_temp (s : nat) (prot : bool) (cs : cstate) : cstate :=
 Definition add_var (s : nat) (prot : bool) (cs : cstate) : cstate :=
   map_head (fun sc => mkScope (sc_vars sc ++ [mkVar s prot]) (sc_temps sc)) cs.
 Definition bind (x : var) (p : place) (cs : cstate) : cstate :=
-  mkC (c_scopes cs) (c_next cs) ((x, p) :: c_env cs) (c_loop cs) (c_fun cs).
+  mkC (c_scopes cs) (c_next cs) ((x, p) :: c_env cs) (c_loop cs) (c_fun cs) (c_glob cs) (c_refs cs).
 Fixpoint lookup (env : list (var * place)) (x : var) : option place :=
   match env with
   | [] => None
@@ -191,6 +193,26 @@ Definition claim_or_copy (dest : nat) (r : res) (cs : cstate) : option (instr * 
 
 Definition res_place (r : res) : option place :=
   match r with RPrim => None | RTemp s => Some (PSlot s) | RRef p => Some p end.
+
+Fixpoint memv (x : var) (l : list var) : bool :=
+  match l with [] => false | y :: r => Nat.eqb x y || memv x r end.
+(* the variables passed by Referenz in a call *)
+Fixpoint ref_vars (a : args) : list var :=
+  match a with ANil => [] | AVal _ r => ref_vars r | ARef x r => x :: ref_vars r end.
+(* rootVarDecl of a by-value argument: a plain variable.  An element read `(x an der Stelle k)` in expression position
+   is a BinaryExpr (BIN_INDEX), not an ast.Indexing, so rootVarDecl answers nil for it and the element is copied. *)
+Definition root_var (e : expr) : option var :=
+  match e with EVar x => Some x | _ => None end.
+(* mayElideArgCopy (91b5d4a): the storage of a non-temporary argument is handed to a constant parameter only if it is
+   (part of) a local variable: not a global, not a Referenz parameter of the current function, not also (part of) a
+   Referenz argument of the same call *)
+Definition may_elide (cs : cstate) (refs : list var) (e : expr) : bool :=
+  match root_var e with
+  | Some x => negb (memv x (c_glob cs)) && negb (memv x (c_refs cs)) && negb (memv x refs)
+  | None => false
+  end.
+Definition add_glob (x : var) (cs : cstate) : cstate :=
+  mkC (c_scopes cs) (c_next cs) (c_env cs) (c_loop cs) (c_fun cs) (x :: c_glob cs) (c_refs cs).
 
 Section Compile.
   (* inlined call of DDP function f whose by-value arguments already sit in the given locations *)
@@ -253,7 +275,7 @@ Section Compile.
     | ECall f a =>
       match fun_sig f with
       | Some (params, _) =>
-        match cargs params a cs with
+        match cargs (ref_vars a) params a cs with
         | Some (ia, locs, cs1) =>
           match inline f locs cs1 with
           | Some (ic, r, cs2) => Some (ISeq ia ic, r, cs2)
@@ -352,7 +374,7 @@ Section Compile.
     end
   (* arguments of a DDP function: by value => claimOrCopy into a fresh, unregistered alloca (the callee
      frees it); elided => the argument's own location is passed; Referenz => the variable's location *)
-  with cargs (ps : list (var * mode * bool)) (a : args) (cs : cstate) {struct a}
+  with cargs (refs : list var) (ps : list (var * mode * bool)) (a : args) (cs : cstate) {struct a}
        : option (instr * list (option place) * cstate) :=
     match a, ps with
     | ANil, [] => Some (ISkip, [], cs)
@@ -363,7 +385,7 @@ Section Compile.
         | MRef, _ => None
         | _, RPrim =>
           if np then None else
-          match cargs ps' r cs1 with
+          match cargs refs ps' r cs1 with
           | Some (ir, locs, cs2) => Some (ISeq ie ir, None :: locs, cs2)
           | None => None
           end
@@ -371,24 +393,39 @@ Section Compile.
           let (dest, cs2) := fresh cs1 in
           match claim_or_copy dest re cs2 with
           | Some (icc, cs3) =>
-            match cargs ps' r cs3 with
+            match cargs refs ps' r cs3 with
             | Some (ir, locs, cs4) => Some (iseq [ie; icc; ir], Some (PSlot dest) :: locs, cs4)
             | None => None
             end
           | None => None
           end
-        | MConst, _ =>
-          match cargs ps' r cs1 with
+        | MConst, RTemp _ =>
+          (* a temporary: its own storage is passed; it stays a temporary of the caller *)
+          match cargs refs ps' r cs1 with
           | Some (ir, locs, cs2) => Some (ISeq ie ir, res_place re :: locs, cs2)
           | None => None
           end
+        | MConst, RRef p =>
+          if may_elide cs1 refs e then
+            match cargs refs ps' r cs1 with
+            | Some (ir, locs, cs2) => Some (ISeq ie ir, Some p :: locs, cs2)
+            | None => None
+            end
+          else
+            (* the argument may change while the callee runs: the callee gets a deep copy, which stays a temporary
+               of the CALLER's scope (the callee does not free a parameter it judged constant) *)
+            let (dest, cs2) := fresh cs1 in
+            match cargs refs ps' r (add_temp dest false cs2) with
+            | Some (ir, locs, cs3) => Some (iseq [ie; ICopy dest p; ir], Some (PSlot dest) :: locs, cs3)
+            | None => None
+            end
         end
       | None => None
       end
     | ARef x r, (_, MRef, _) :: ps' =>
       match lookup (c_env cs) x with
       | Some p =>
-        match cargs ps' r cs with
+        match cargs refs ps' r cs with
         | Some (ir, locs, cs1) => Some (ir, Some p :: locs, cs1)
         | None => None
         end
@@ -440,7 +477,7 @@ Section Compile.
     end.
 
   Definition set_loop (cs : cstate) (l : option (nat * nat)) : cstate :=
-    mkC (c_scopes cs) (c_next cs) (c_env cs) l (c_fun cs).
+    mkC (c_scopes cs) (c_next cs) (c_env cs) l (c_fun cs) (c_glob cs) (c_refs cs).
 
   Fixpoint cstmt (s : stmt) (cs : cstate) {struct s} : option (instr * cstate) :=
     match s with
@@ -459,7 +496,10 @@ Section Compile.
         | RPrim => Some (ie, cs1)
         | _ => let (v, cs2) := fresh cs1 in
                match claim_or_copy v re cs2 with
-               | Some (icc, cs3) => Some (ISeq ie icc, bind x (PSlot v) (add_var v false cs3))
+               | Some (icc, cs3) =>
+                 let cs4 := bind x (PSlot v) (add_var v false cs3) in
+                 (* a variable declared in the outermost scope of the main module is a global *)
+                 Some (ISeq ie icc, match c_fun cs4, c_scopes cs4 with None, [_] => add_glob x cs4 | _, _ => cs4 end)
                | None => None
                end
         end
@@ -675,7 +715,8 @@ Fixpoint inline_d (P : program) (d : nat) (f : nat) (locs : list (option place))
       let cs1 := push_scope cs0 in                                  (* cfscp *)
       match bind_params (f_params fd) locs cs1 with
       | Some (moves, consumed, cs2) =>
-        let cs3 := mkC (c_scopes cs2) (c_next cs2) (c_env cs2) None (Some (height cs2, ret)) in
+        let refs := map (fun q => fst (fst q)) (filter (fun q => match snd (fst q) with MRef => true | _ => false end) (f_params fd)) in
+        let cs3 := mkC (c_scopes cs2) (c_next cs2) (c_env cs2) None (Some (height cs2, ret)) (c_glob cs2) refs in
         let cs4 := push_scope cs3 in                                (* the body's block scope *)
         match cstmt (inline_d P d') (sig_of P) (f_body fd) cs4 with
         | Some (ib, cs5) =>
@@ -683,7 +724,7 @@ Fixpoint inline_d (P : program) (d : nat) (f : nat) (locs : list (option place))
           let cs6 := pop_scope cs5 in
           let ffun := exit_frees true (hd empty_scope (c_scopes cs6)) in
           let cs7 := pop_scope cs6 in
-          let cs8 := mkC (c_scopes cs7) (c_next cs7) (c_env cs0) saved_loop saved_fun in
+          let cs8 := mkC (c_scopes cs7) (c_next cs7) (c_env cs0) saved_loop saved_fun (c_glob cs0) (c_refs cs0) in
           let code := IFun consumed ret (iseq (moves ++ ib :: fbody ++ ffun)) in
           match ret with
           | Some r => Some (code, RTemp r, add_temp r false cs8)
@@ -696,7 +737,7 @@ Fixpoint inline_d (P : program) (d : nat) (f : nat) (locs : list (option place))
     end
   end.
 
-Definition init_cstate : cstate := mkC [empty_scope] 0 [] None None.
+Definition init_cstate : cstate := mkC [empty_scope] 0 [] None None [] [].
 
 (* the main module: statements in the global scope, exitScope at the end of ddp_main (compiler.go:204) *)
 Definition compile (P : program) : option instr :=
